@@ -316,4 +316,119 @@ theorem arith_ordered (op : ArithOp) (lhs rhs : Opd) :
     | ok v => exact ht e (by simpa using he)
     | err => exact ht e (by simpa using he)
 
+/-! ### the `@iterator` nesting walk -/
+
+theorem iterateResult_not_tooNested (t : List Ev) (r : CallRes) :
+    (iterateResult t r).res ≠ .err .tooNested := by
+  cases r with
+  | ret v =>
+    cases v <;> simp [iterateResult]
+    all_goals (first | (rename_i k; cases k <;> simp [iterateResult]) | (rename_i b; cases b <;> simp [iterateResult]))
+  | unimpl => simp [iterateResult, CallRes.pass]
+  | throw => simp [iterateResult, CallRes.pass]
+  | notCallable => simp [iterateResult, CallRes.pass]
+
+/-- shape of every walk, for an arbitrary object graph: at most `l` `@iterator` evaluations, then
+either the nesting error or the leaf handler on some value -/
+theorem iterWalk_shape (nx : IterStep) (leaf : List Ev → CallRes → Out) :
+    ∀ (l : Nat) (v : AV) (t : List Ev), ∃ t', t'.length ≤ l ∧
+      (iterWalk nx leaf l v t = ⟨t ++ t', .err .tooNested⟩ ∨
+       ∃ w, iterWalk nx leaf l v t = leaf (t ++ t') (.ret w)) := by
+  intro l
+  induction l with
+  | zero =>
+    intro v t
+    refine ⟨[], by simp, ?_⟩
+    cases h : nx v with
+    | none => exact Or.inr ⟨v, by simp [iterWalk, h]⟩
+    | some p => exact Or.inl (by simp [iterWalk, h])
+  | succ l ih =>
+    intro v t
+    cases h : nx v with
+    | none => exact ⟨[], by simp, Or.inr ⟨v, by simp [iterWalk, h]⟩⟩
+    | some p =>
+      obtain ⟨e, nv⟩ := p
+      obtain ⟨t', hl, hs⟩ := ih nv (t ++ [e])
+      refine ⟨e :: t', by simp; omega, ?_⟩
+      rcases hs with hs | ⟨w, hs⟩
+      · exact Or.inl (by simp [iterWalk, h, hs])
+      · exact Or.inr ⟨w, by simp [iterWalk, h, hs]⟩
+
+/-- one more level changes nothing unless the limit was hit -/
+theorem iterWalk_succ_of_ok (nx : IterStep) (leaf : List Ev → CallRes → Out) :
+    ∀ (l : Nat) (v : AV) (t : List Ev), (iterWalk nx leaf l v t).res ≠ .err .tooNested →
+      iterWalk nx leaf (l + 1) v t = iterWalk nx leaf l v t := by
+  intro l
+  induction l with
+  | zero =>
+    intro v t h
+    cases hn : nx v with
+    | none => simp [iterWalk, hn]
+    | some p => simp [iterWalk, hn] at h
+  | succ l ih =>
+    intro v t h
+    cases hn : nx v with
+    | none => simp [iterWalk, hn]
+    | some p =>
+      obtain ⟨e, nv⟩ := p
+      have h' : (iterWalk nx leaf l nv (t ++ [e])).res ≠ .err .tooNested := by
+        simpa [iterWalk, hn] using h
+      have := ih nv (t ++ [e]) h'
+      simp only [iterWalk, hn]
+      exact this
+
+/-- the events of the nest objects `i … i+k` -/
+def nestEvents (i k d : Nat) (fin : NestFin) : List Ev :=
+  (List.range k).map (fun j => ⟨909 + (i + j), .mk .Iterator, .aux (i + j) d fin, []⟩)
+
+/-- walking down a nest that ends in a list: with enough levels left, every nest object is
+evaluated once, in order, and the innermost list is iterated -/
+theorem iterWalk_nest (root : AV) (rootEv : Ev) (v0 : AV) (leaf : List Ev → CallRes → Out)
+    (d : Nat) (hroot : ∀ xs, root ≠ .lst xs) :
+    ∀ (k i l : Nat) (t : List Ev), i + k = d → k + 1 ≤ l →
+      iterWalk (nestStep root rootEv v0) leaf l (.aux i d .lst) t =
+        leaf (t ++ nestEvents i (k + 1) d .lst) (.ret (.lst [20, 21])) := by
+  intro k
+  induction k with
+  | zero =>
+    intro i l t hi hl
+    obtain ⟨l', rfl⟩ : ∃ l', l = l' + 1 := ⟨l - 1, by omega⟩
+    have hid : ¬ i < d := by omega
+    have hne : ¬ (AV.lst [20, 21] = root) := fun h => hroot _ h.symm
+    cases l' with
+    | zero => simp [iterWalk, nestStep, hid, NestFin.toAV, hne, nestEvents]
+    | succ l'' => simp [iterWalk, nestStep, hid, NestFin.toAV, hne, nestEvents]
+  | succ k ih =>
+    intro i l t hi hl
+    obtain ⟨l', rfl⟩ : ∃ l', l = l' + 1 := ⟨l - 1, by omega⟩
+    have hid : i < d := by omega
+    have := ih (i + 1) l' (t ++ [⟨909 + i, .mk .Iterator, .aux i d .lst, []⟩]) (by omega) (by omega)
+    simp only [iterWalk, nestStep, hid, if_true]
+    rw [this]
+    congr 1
+    simp [nestEvents, List.range_succ_eq_map, List.map_map, Function.comp_def, Nat.add_assoc, Nat.add_comm 1]
+
+/-- a value whose `@iterator` returns itself (or any cycle folded into one step): exactly `l` more
+evaluations, then the nesting error -/
+theorem iterWalk_cycle (nx : IterStep) (leaf : List Ev → CallRes → Out) (v : AV) (e : Ev)
+    (h : nx v = some (e, v)) :
+    ∀ (l : Nat) (t : List Ev), iterWalk nx leaf l v t = ⟨t ++ List.replicate l e, .err .tooNested⟩ := by
+  intro l
+  induction l with
+  | zero => intro t; simp [iterWalk, h]
+  | succ l ih =>
+    intro t
+    simp only [iterWalk, h]
+    rw [ih]
+    simp [List.replicate_succ]
+
+theorem invoke_trace_le_one (tag : Name) (key : MKey) (mv : MV) (self : AV) (args : List AV) :
+    (invoke tag key mv self args).1.length ≤ 1 := by
+  cases mv with
+  | fn b => simp [invoke, invokeAt]
+  | nonCallable => simp [invoke, invokeAt]
+  | chain mids fin =>
+    unfold invoke invokeAt
+    cases hm : mids.getLast? <;> cases fin <;> simp [hm]
+
 end KotoVerif.C17L
